@@ -189,14 +189,17 @@ P.fn('Macro.parse/v', params=dict(self='Macro', tex='TeX'), returns='opaque', tr
      ensures=['old(tex.pos) <= tex.pos', 'tex.pos < len(XS())'], notes='reads the optional star (C05); a delimiter follows (\\verb at the very end of the input is a TeX error)')
 P.const('Token.CC_BGROUP', 1)
 P.const('Token.CC_OTHER', 12)
+P.const('Token.CC_LETTER', 11)
 FIRST = 'XS()[tex.pos - 1]'
 P.fn(FV + 'verb.invoke', name='verb.invoke/delimiter', params=dict(self='Macro', tex='TeX'), returns='list[Any]',
      requires=['0 <= tex.pos', 'tex.pos <= len(XS())', 'all(not isnone(XS()[k]) and XS()[k].nodeType != 1 for k in range(len(XS())))',
                'ghost("frames") == 0'],
      stop_before_loop=1, locals={'[]': 'list[Any]', 'tokens': 'list[Any]'},
      end_ensures=['len(tokens) == 2', 'tokens[0] is self', 'tokens[1] is endpattern', 'ghost("frames") == 1', 'self.delimiter is endpattern',
-                  'endpattern.nodeType != 1', 'endpattern.catcode == 12',
-                  'endpattern.text == ("}" if %s.catcode == 1 else (%s.text if %s.catcode == 12 else CHAR_OF(%s.text)))' % (FIRST, FIRST, FIRST, FIRST)],
+                  'endpattern.nodeType != 1',
+                  # a letter stays the letter it is (letters keep their category under the verbatim codes); everything else is compared as a plain character
+                  'implies(%s.catcode == 11, endpattern is %s)' % (FIRST, FIRST), 'implies(%s.catcode != 11, endpattern.catcode == 12)' % FIRST,
+                  'endpattern.text == ("}" if %s.catcode == 1 else (%s.text if (%s.catcode == 12 or %s.catcode == 11) else CHAR_OF(%s.text)))' % (FIRST, FIRST, FIRST, FIRST, FIRST)],
      raises={'UnboundLocalError': 'True'},
      allocates=True, skip_frame=True,
      calls={'self.ownerDocument.context.push': 'Context.push', 'self.parse': 'Macro.parse/v', 'self.ownerDocument.context.setVerbatimCatcodes': 'Context.setVerbatimCatcodes',
